@@ -16,7 +16,35 @@ func init() {
 	register("C11", func(r *vk.Report) {
 		eseqCheck(r, "C11", "cache", []string{"cache", "inv", "ret", "state", "events:cache.", "events:brk.", "events:rl.", "events:bh."})
 	})
-	register("C16", func(r *vk.Report) { eseqCheck(r, "C16", "events", []string{"events", "verdict"}) })
+	register("C16", func(r *vk.Report) {
+		eseqCheck(r, "C16", "events", []string{"events", "verdict"})
+		// breaker state-change events under standalone and manual operations with listener subsets (connected path,
+		// specific + generic pairing, no event without a transition)
+		nb := scale(r, 3000, 200000)
+		vk.Parallel(nb, 16, func(i int) {
+			if r.Skip(20000000 + i) {
+				return
+			}
+			runBreakerHistory(r, 20000000+i, "C16")
+		})
+		nr := scale(r, 400, 20000)
+		vk.Parallel(nr, 32, func(i int) {
+			if r.Skip(25000000 + i) {
+				return
+			}
+			c16Rejections(r, 25000000+i)
+		})
+		// concurrent executions sharing listeners: exactly one OnDone and one of OnSuccess/OnFailure per execution
+		rr := vk.Rng(r.Seed, "C16c", 0)
+		comps := c14Compositions(rr, true)
+		for ci := 0; ci < len(comps); ci += scale(r, 3, 1) {
+			if r.Skip(30000000 + ci) {
+				continue
+			}
+			c14Round(r, "C16", 30000000+ci, comps[ci], ci)
+		}
+		r.Rule += " Plus rejection-event scenarios (bulkhead/limiter refused, or cancelled by context, deadline or outer Timeout while queueing: OnFull/OnRateLimitExceeded fire exactly for refusals), 3 000 breaker histories with manual Open/HalfOpen/Close and listener subsets (events only), and concurrent rounds over shared executors where each execution must see exactly one OnDone and one of OnSuccess/OnFailure (attribution by a per-execution counter carried in the context)."
+	})
 	register("C17", func(r *vk.Report) {
 		eseqCheck(r, "C17", "stats", []string{"stats"})
 		// statistics identity when an execution is cancelled in a retry delay, a policy wait or inside the function
